@@ -17,6 +17,10 @@ OPS = [
 
 
 def run(ctx):
+    if getattr(ctx, "replay", None):
+        from checks import execreplay
+        if execreplay.replay(ctx, "C05"):
+            return
     ctx.assumptions += [
         "wall-clock bounds and real goroutine liveness are not expressible in the model: they are observed (time-boxed runs; goroutine dumps filtered to gqlgen/generated frames after the request ended and its context was cancelled)",
         "resolvers return promptly when their context is cancelled (the universal resolver's sleeps select on ctx.Done)",
